@@ -1,5 +1,7 @@
 // Engine `obj`: C11 (setters change their field and nothing else), C12 (wire layout), C13 (payload
 // builders), C14 (packets and payloads are values).
+#define MC_ALLOCFAULT_IMPL
+#include "mc/allocfault.h"
 #include "engines/obj_c11.h"
 #include "engines/obj_c13.h"
 #include "engines/obj_c14.h"
